@@ -611,6 +611,16 @@ func (fx *FuncCtx) applyContract(st *State, ct *Contract, names []string, args [
 					}
 					ca = append(ca, a)
 				}
+				if len(ct.Passes) > 0 {
+					pv := map[string]*Val{}
+					for i := range fv.Fn.Params {
+						pv[fmt.Sprintf("cb%d", i)] = ca[i]
+					}
+					penv := &Env{fx: fx, st: st, old: st, vars: pv, pkg: pkg, errs: &fx.clauseErrs}
+					for _, c := range ct.Passes {
+						fx.assumeTagged(st, fx.evalClause(c, penv), "call."+shortCallee(short)+"."+c.Label)
+					}
+				}
 				for i, fvv := range fv.Fn.FreeVars {
 					cn = append(cn, fvv.Name())
 					if i < len(fv.Binds) {
